@@ -21,6 +21,8 @@ type Case struct {
 	TraceRoot string `json:"trace_root,omitempty"`
 	TraceAck  string `json:"trace_ack,omitempty"`
 	Only      int    `json:"only,omitempty"` // >0: judge only the boundary with this sequence number
+	// Disk: run the traced child on the disk file system instead of tmpfs (other directory listing order, real fsync)
+	Disk bool `json:"disk,omitempty"`
 }
 
 func ProgramGen(async bool) *rapid.Generator[prog.Program] {
@@ -73,7 +75,7 @@ func ProgramGen(async bool) *rapid.Generator[prog.Program] {
 
 func Gen() *rapid.Generator[Case] {
 	return rapid.Custom(func(t *rapid.T) Case {
-		return Case{Program: ProgramGen(false).Draw(t, "program")}
+		return Case{Program: ProgramGen(false).Draw(t, "program"), Disk: rapid.IntRange(0, 3).Draw(t, "disk") == 0}
 	})
 }
 
@@ -170,7 +172,20 @@ func ExecuteOpts(id string, c Case, x *h.Ctx, judge func(p *prog.Program, ops []
 			panic(fmt.Sprintf("cannot load trace %s: %v", c.TraceFile, err))
 		}
 	} else {
-		tr, err = crash.Run(p, work, maxStr, nil)
+		runDir := work
+		if c.Disk {
+			for _, d := range []string{os.Getenv("VERIF_SCRATCH_DISK"), "/var/tmp"} {
+				if st, e := os.Stat(d); d != "" && e == nil && st.IsDir() {
+					if rd, e := os.MkdirTemp(d, "verif-crash-run-"); e == nil {
+						runDir = rd
+						defer os.RemoveAll(rd)
+						x.Label("child-on-disk-fs")
+					}
+					break
+				}
+			}
+		}
+		tr, err = crash.Run(p, runDir, maxStr, nil)
 		if err != nil {
 			x.Discard("trace-failed: " + firstLine(err.Error()))
 			return nil
